@@ -16,18 +16,30 @@ Theorem rat_to_fbig_repaired_witness :
   rat_to_fbig 10 3 MHalfAway 12346 1000 = AInexact 123 (-1) NoOp.
 Proof. vm_compute. repeat split; reflexivity. Qed.
 
-(** F38 FBig -> f32 in the subnormal range: 3 * 2^-151 is 0.75 of the smallest subnormal; the
-    value is right here but the flag says NoOp (towards zero) although it was rounded up *)
+(** F38 FBig -> f32 in the subnormal range (code before the fourth round; since then repaired for base 2):
+    3 * 2^-151 is 0.75 of the smallest subnormal; the value was right but the flag said NoOp (towards
+    zero) although it was rounded up *)
 Theorem fbig_to_float_subnormal_refuted :
-  fbig_to_float P32 2 MHalfEven 3 (-151) = Ok (FR 1 (Some NoOp)) /\
+  fbig_to_float_old P32 2 MHalfEven 3 (-151) = Ok (FR 1 (Some NoOp)) /\
   ieee_round F32 MHalfEven 3 (2 ^ 151) = (1, Gt) /\
   flag_of_error 1 Gt = Some AddOne.
 Proof. vm_compute. repeat split; reflexivity. Qed.
 
-(** ... and a value that is rounded twice: (2^25 + 23) * 2^-153, i.e. (2^21 + 1 + 7/16) ulps *)
+(** ... and a value that was rounded twice: (2^25 + 23) * 2^-153, i.e. (2^21 + 1 + 7/16) ulps *)
 Theorem fbig_to_float_subnormal_value_refuted :
-  fbig_to_float P32 2 MHalfEven (2 ^ 25 + 23) (-153) = Ok (FR (2 ^ 21 + 2) (Some NoOp)) /\
+  fbig_to_float_old P32 2 MHalfEven (2 ^ 25 + 23) (-153) = Ok (FR (2 ^ 21 + 2) (Some NoOp)) /\
   fst (ieee_round F32 MHalfEven (2 ^ 25 + 23) (2 ^ 153)) = 2 ^ 21 + 1.
+Proof. vm_compute. repeat split; reflexivity. Qed.
+
+(** the repaired base-2 conversion on the same witnesses, and on a base the repair does not cover
+    (16: exact convert_base, 24 bits, then encode): the class stays open for bases other than 2 *)
+Theorem fbig_to_float_subnormal_repaired_witness :
+  fbig_to_float P32 2 MHalfEven 3 (-151) = Ok (FR 1 (Some AddOne)) /\
+  fbig_to_float P32 2 MHalfEven (2 ^ 25 + 23) (-153) = Ok (FR (2 ^ 21 + 1) (Some NoOp)) /\
+  fbig_to_float P32 2 MUp 1 (-200) = Ok (FR 1 (Some AddOne)) /\
+  fbig_to_float P32 2 MUp (-1) (-200) = Ok (FR (2 ^ 31) (Some NoOp)) /\
+  fbig_to_float P32 16 MHalfEven 6 (-38) = Ok (FR 1 (Some NoOp)) /\
+  ieee_round F32 MHalfEven 6 (2 ^ 152) = (1, Gt).
 Proof. vm_compute. repeat split; reflexivity. Qed.
 
 (** F39 (repaired in the fourth round) non-binary FBig -> f64 through repr_div: before the repair
